@@ -23,7 +23,8 @@ RULE = (
     "order(1), order(999), after=x, before=x for every other element x}, restricted to well-founded specifications "
     "(acyclic anchor chains; cyclic ones are contradictory input, counted and excluded); plus class-level order([...]) "
     "for every permutation and order({...}) mapping overrides, and inheritance (spec in base / override in derived) for "
-    "n<=3. Four views must be the same permutation (projected on the elements a view contains): keys of serialize(), "
+    "n<=3; plus classes of 3 fields where the anchor of an after / before is absent from some views (skip(serialization=True), "
+    "skip(deserialization=True), init=False). Four views must be the same permutation (projected on the elements a view contains): keys of serialize(), "
     "properties of serialization_schema and deserialization_schema, field order of the GraphQL object type; and equal to "
     "the reference order. distinct_nontrivial counts distinct (n, split, spec) classes."
 )
@@ -151,6 +152,13 @@ def views(mod, cname: str, gql_types) -> Dict[str, List[str]]:
     out["deserialization_schema"] = list(deserialization_schema(cls).get("properties", {}))
     if gql_types is not None and cname in gql_types:
         out["graphql"] = list(gql_types[cname].fields)
+    if not any(n.startswith(("m", "a_m")) for n in out["serialize"]) and set(out["serialization_schema"]) == set(out["deserialization_schema"]):
+        # definitions shared by both sides (same element set): one more spelling of the same properties
+        from apischema.json_schema import definitions_schema
+
+        d = definitions_schema(deserialization=[cls], serialization=[cls], all_refs=True)
+        if cname in d:
+            out["definitions_both"] = list(d[cname].get("properties", {}))
     # aliased serialized methods (a_m0, GraphQL aM0) are reported under their Python name
     ren = {"a_m0": "m0", "a_m1": "m1", "aM0": "m0", "aM1": "m1"}
     return {k: [ren.get(x, x) for x in v] for k, v in out.items()}
@@ -166,7 +174,7 @@ def check_class(mod, cname, names, spec, st, gql_types, extra_what=""):
         st.violation({"signature": {"kind": "exception", "exc": type(e).__name__}, "what": f"{cname} {spec}: {e!r}"[:300], "spec": repr(spec), "n": [len(fields), len(names) - len(fields)]})
         return
     st.case(len(fields), len(names) - len(fields), tuple(sorted((k, repr(x)) for k, x in spec.items())), extra_what)
-    expected = {"serialize": exp, "serialization_schema": exp, "deserialization_schema": exp_fields, "graphql": exp_fields}
+    expected = {"serialize": exp, "serialization_schema": exp, "deserialization_schema": exp_fields, "graphql": exp_fields, "definitions_both": exp_fields}
     for view, got in v.items():
         if got != expected[view]:
             lost = sorted(set(expected[view]) - set(got))
@@ -322,9 +330,121 @@ def run_class_level(st: infra.Stats):
     st.count("class_level_cases", len(metas))
 
 
+def run_resolver_serialized(st: infra.Stats):
+    """resolver(serialized=True, order=...): the method is a GraphQL field *and* a serialized method, at one position"""
+    src = ["from apischema.graphql import resolver"]
+    metas = []
+    k = 0
+    for sp in (None, ("v", -1), ("v", 999), ("before", "f0"), ("after", "f0"), ("before", "f1")):
+        for fspec in ({}, {"f1": ("v", -1)}, {"f0": ("after", "m0")}):
+            spec = dict(fspec)
+            if sp is not None:
+                spec["m0"] = sp
+            if not well_founded(["f0", "f1", "m0"], spec):
+                continue
+            k += 1
+            cname = f"RS{k}"
+            o = spec_src(spec.get("m0"))
+            lines = ["@dataclass", f"class {cname}:"]
+            for n in ("f0", "f1"):
+                fo = spec_src(spec.get(n))
+                lines.append(f"    {n}: int = field(default=0, metadata={fo})" if fo else f"    {n}: int = 0")
+            lines.append(f"    @resolver(serialized=True, order={o})" if o else "    @resolver(serialized=True)")
+            lines.append("    def m0(self) -> int:")
+            lines.append("        return 1")
+            src.append("\n".join(lines))
+            metas.append((cname, spec))
+    mod = exec_source(PRELUDE + "\n".join(src))
+    gql = gql_types_of(mod, [c for c, _ in metas])
+    for cname, spec in metas:
+        cls = getattr(mod, cname)
+        exp = ref_order(["f0", "f1", "m0"], spec)
+        st.case("resolver_serialized", tuple(sorted((a, repr(b)) for a, b in spec.items())))
+        got = {"serialize": list(serialize(cls, cls())), "serialization_schema": list(serialization_schema(cls).get("properties", {}))}
+        if not isinstance(gql, Exception) and cname in gql:
+            got["graphql"] = list(gql[cname].fields)
+        for view, g in got.items():
+            if g != exp:
+                st.violation({"signature": {"kind": "order", "view": view, "lost": bool(set(exp) - set(g)), "duplicated": False, "world": "resolver_serialized"}, "what": f"{view} order {g} != expected {exp} for spec {spec} (m0 declared with resolver(serialized=True))"[:400], "spec": repr(spec), "n": [2, 1], "extra": "resolver_serialized"})
+    import sys
+
+    sys.modules.pop(mod.__name__, None)
+    apischema.cache.reset()
+
+
+def run_absent_anchors(st: infra.Stats):
+    """a field ordered after / before a field that a view does not contain (skipped in one direction,
+    init=False) keeps its place relative to the others in that view, and is never lost"""
+    kinds = {
+        "skip_ser": ("field(default=0, metadata=skip(serialization=True){md})", {"serialize", "serialization_schema"}),
+        "skip_deser": ("field(default=0, metadata=skip(deserialization=True){md})", {"deserialization_schema"}),
+        "init_false": ("field(default=0, init=False{mdkw})", {"deserialization_schema"}),
+    }
+    names = ["f0", "f1", "f2"]
+    src, metas = [], []
+    k = 0
+    for kind, (decl, absent_in) in kinds.items():
+        for anchor in names:
+            for attached in names:
+                if attached == anchor:
+                    continue
+                for rel in ("after", "before"):
+                    for third_spec in (None, ("v", -1), ("v", 999), (rel, attached)):
+                        third = next(n for n in names if n not in (anchor, attached))
+                        spec = {attached: (rel, anchor)}
+                        if third_spec is not None:
+                            spec[third] = third_spec
+                        for anchor_spec in (None, ("v", 1)):
+                            sp = dict(spec)
+                            if anchor_spec:
+                                sp[anchor] = anchor_spec
+                            if not well_founded(names, sp):
+                                continue
+                            k += 1
+                            cname = f"X{k}"
+                            lines = ["@dataclass", f"class {cname}:"]
+                            for n in names:
+                                o = spec_src(sp.get(n))
+                                if n == anchor:
+                                    lines.append(f"    {n}: int = " + decl.format(md=(" | " + o) if o else "", mdkw=(", metadata=" + o) if o else ""))
+                                elif o:
+                                    lines.append(f"    {n}: int = field(default=0, metadata={o})")
+                                else:
+                                    lines.append(f"    {n}: int = 0")
+                            src.append("\n".join(lines))
+                            metas.append((cname, sp, anchor, absent_in, kind))
+    mod = exec_source(PRELUDE + "\n".join(src))
+    for cname, sp, anchor, absent_in, kind in metas:
+        cls = getattr(mod, cname)
+        full = ref_order(names, sp)
+        st.case("absent_anchor", kind, tuple(sorted((a, repr(b)) for a, b in sp.items())))
+        try:
+            got = {
+                "serialize": list(serialize(cls, cls())),
+                "serialization_schema": list(serialization_schema(cls).get("properties", {})),
+                "deserialization_schema": list(deserialization_schema(cls).get("properties", {})),
+            }
+        except Exception as e:
+            st.violation({"signature": {"kind": "exception", "exc": type(e).__name__, "world": "absent_anchor"}, "what": f"{kind} anchor {anchor} spec {sp}: {e!r}"[:300], "spec": repr(sp), "n": [3, 0]})
+            continue
+        for view, g in got.items():
+            exp = [n for n in full if not (n == anchor and view in absent_in)]
+            if g != exp:
+                st.violation({"signature": {"kind": "order", "view": view, "lost": bool(set(exp) - set(g)), "duplicated": len(g) != len(set(g)), "absent_anchor": kind}, "what": f"{view} order {g} != expected {exp} for spec {sp} with {anchor} declared {kind}"[:400], "spec": repr(sp), "n": [3, 0], "extra": f"absent anchor {anchor}:{kind}"})
+    st.count("absent_anchor_cases", len(metas))
+    import sys
+
+    sys.modules.pop(mod.__name__, None)
+    apischema.cache.reset()
+
+
 def work(tier, widx, nworkers, st, extra):
     if widx == 0:
         run_class_level(st)
+    if widx == (1 % nworkers):
+        run_absent_anchors(st)
+    if widx == (2 % nworkers):
+        run_resolver_serialized(st)
     batch = []
     for i, c in enumerate(cases(tier)):
         if (i // BATCH) % nworkers != widx:
